@@ -151,6 +151,10 @@ def shard(sh):
     drv.define_schema(sid, sch.spec())
     st = ShardStats('E1 N=%d, %d insertion(s)' % (N, nins))
     alpha = words_for(sch)
+    if N >= 100:
+        # reduced alphabet, deeper: annotated options inside (nested) sections, after lists, in later instances
+        alpha = [n for n in sch.all_names()] + [b'7', b't1', b'=', b'{', b'}']
+        N -= 100
     buf = []
     for prefix in prefixes:
         for words, m0 in e1_words(sch, alpha, N, prefix):
@@ -187,7 +191,7 @@ def main():
     quick = ck.tier == 'quick'
     dl = ck.deadline
     plan = [(4, 1), (3, 2), (5, 1)] if quick else [(5, 1), (4, 2), (6, 1), (5, 2)]      # cheapest first, the deepest bound last
-    for N, nins in plan:
+    def run_plan(N, nins):
         shards = []
         for sid in USE:
             sch = FAM[sid]
@@ -197,6 +201,20 @@ def main():
             for ch in engine.chunks(frontier, 3):
                 shards.append((sid, N, nins, ch, FORMS, dl))
         engine.phase(ck, 'E1 N=%d x %d insertion(s) x annotations off/on' % (N, nins), shard, shards, schemas=len(USE), forms=len(FORMS))
+    for N, nins in plan[:-1]:
+        run_plan(N, nins)
+    DEEPFORMS = [b'/* a\n b */', b'#c\n', b'/*c*/', b'\n']
+    Nd = 7 if quick else 9
+    shards = []
+    for sid in ('F05', 'F07', 'F11', 'F16'):
+        sch = FAM[sid]
+        alpha = [n for n in sch.all_names()] + [b'7', b't1', b'=', b'{', b'}']
+        inner, frontier = viable_prefix_words(sch, alpha, 3)
+        shards.append((sid, 0, 1, inner, DEEPFORMS, dl))
+        for ch in engine.chunks(frontier, 2):
+            shards.append((sid, 100 + Nd, 1, ch, DEEPFORMS, dl))
+    engine.phase(ck, 'E1 reduced alphabet N=%d x 1 insertion x annotations off/on (options inside sections)' % Nd, shard, shards, schemas=4, forms=len(DEEPFORMS))
+    run_plan(*plan[-1])
     ck.assumptions = ['an annotation is asserted only for a comment immediately in front of a scalar or braced non-empty list assignment; what other '
                       'comments become is not compared', 'the bare-value list form (l = v) is not asserted to take an annotation']
     ck.finish('E1 token sequence x insertion position(s) x comment / white-space form x annotation flag; non-trivial = distinct accepted texts')
